@@ -1011,12 +1011,12 @@ func checkBBCSendWaitsForTheModem(p *core.Program, r *core.Report) {
 	}
 	waits := true
 	n := 0
-	for _, ret := range core.Returns(send) {
-		if len(ret.Results) == 0 || !core.IsNilConst(ret.Results[len(ret.Results)-1]) {
+	for _, rv := range core.ReturnValues(send, send.Signature.Results().Len()-1) {
+		if !core.IsNilConst(rv.V) {
 			continue
 		}
 		n++
-		if !core.MustPassBefore(ret, isCompletionWait) {
+		if !core.MustPassBefore(rv.At, isCompletionWait) {
 			waits = false
 		}
 	}
